@@ -34,6 +34,8 @@ func checkC18(c *Ctx) {
 	ruleEnabledResetOnUnauth(c, "C18.h")
 	c.rule("C18.i", "the cached capabilities are invalidated when the server may have changed them, and setCaps stores what it is given", 2)
 	ruleCapsInvalidation(c, "C18.i", []string{"startTLSCommand", "loginCommand", "authenticateCommand", "unauthenticateCommand"})
+	c.rule("C18.j", "a continuation request's outcome is stored before the channel that wakes the literal writer is closed", 1)
+	rulePublishBeforeClose(c, "C18.j", "internal/imapwire", "imapclient")
 }
 
 func capSubsets(names ...string) [][]string {
